@@ -5,7 +5,7 @@
    stale Terminated messages, in any interleaving).  Worker accounting: model C33/Worker.v on top of the
    plan of C32, proofs C33/WorkerProofs.v, for every failure oracle. *)
 From Coq Require Import List ZArith NArith Bool Arith Permutation.
-From GV Require Import C32.Model C33.Model C33.Proofs C33.Steps C33.Worker C33.WorkerProofs.
+From GV Require Import C32.Model C33.Model C33.Proofs C33.Steps C33.Worker C33.WorkerProofs C33.Examples.
 Import ListNotations.
 
 (* at any point of any history, the relocation of an address has exactly one owner (a queued Rebalance,
